@@ -89,6 +89,22 @@ func (pConn *PFCPConn) handleSessionEstablishmentRequest(msg message.Message) (m
 			ie.CauseNoResourcesAvailable)
 	}
 
+	// errRollbackReply rejects the request after the session has been allocated:
+	// everything acquired for the session so far is returned first.
+	errRollbackReply := func(err error, cause uint8) (message.Message, error) {
+		releaseAllocatedFTEIDs(upf.fteidGenerator, session.pdrs)
+
+		if upf.ippool != nil {
+			if errDealloc := upf.ippool.DeallocIP(session.localSEID); errDealloc != nil {
+				logger.PfcpLog.Debugln("no UE IP to release for rejected session:", errDealloc)
+			}
+		}
+
+		pConn.RemoveSession(session)
+
+		return errProcessReply(err, cause)
+	}
+
 	addPDRs := make([]pdr, 0, MaxItems)
 	addFARs := make([]far, 0, MaxItems)
 	addQERs := make([]qer, 0, MaxItems)
@@ -96,14 +112,14 @@ func (pConn *PFCPConn) handleSessionEstablishmentRequest(msg message.Message) (m
 	for _, cPDR := range sereq.CreatePDR {
 		var p pdr
 		if err = p.parsePDR(cPDR, session.localSEID, pConn.appPFDs, upf.ippool); err != nil {
-			return errProcessReply(err, ie.CauseRequestRejected)
+			return errRollbackReply(err, ie.CauseRequestRejected)
 		}
 
 		if p.UPAllocateFteid {
 			var fteid uint32
 			fteid, err = pConn.upf.fteidGenerator.Allocate()
 			if err != nil {
-				return errProcessReply(err, ie.CauseNoResourcesAvailable)
+				return errRollbackReply(err, ie.CauseNoResourcesAvailable)
 			}
 			p.tunnelTEID = fteid
 			p.tunnelTEIDMask = 0xFFFFFFFF
@@ -119,7 +135,7 @@ func (pConn *PFCPConn) handleSessionEstablishmentRequest(msg message.Message) (m
 	for _, cFAR := range sereq.CreateFAR {
 		var f far
 		if err = f.parseFAR(cFAR, session.localSEID, upf, create); err != nil {
-			return errProcessReply(err, ie.CauseRequestRejected)
+			return errRollbackReply(err, ie.CauseRequestRejected)
 		}
 
 		f.fseidIP = fseidIP
@@ -130,7 +146,7 @@ func (pConn *PFCPConn) handleSessionEstablishmentRequest(msg message.Message) (m
 	for _, cQER := range sereq.CreateQER {
 		var q qer
 		if err = q.parseQER(cQER, session.localSEID); err != nil {
-			return errProcessReply(err, ie.CauseRequestRejected)
+			return errRollbackReply(err, ie.CauseRequestRejected)
 		}
 
 		q.fseidIP = fseidIP
@@ -154,8 +170,7 @@ func (pConn *PFCPConn) handleSessionEstablishmentRequest(msg message.Message) (m
 
 	cause := upf.SendMsgToUPF(upfMsgTypeAdd, session.PacketForwardingRules, updated)
 	if cause == ie.CauseRequestRejected {
-		pConn.RemoveSession(session)
-		return errProcessReply(ErrWriteToDatapath,
+		return errRollbackReply(ErrWriteToDatapath,
 			ie.CauseRequestRejected)
 	}
 
